@@ -8,7 +8,8 @@
    examples and the correspondence check. *)
 From Coq Require Import ZArith String List Bool Lia.
 From Verif Require Import C17.Model C17.Spec C17.Mputil C17.Proofs C17.ProofsOpts C17.ProofsGeom
-     C17.ProofsRoute C17.ProofsJoin C17.Examples C17.ProofsWitness.
+     C17.ProofsRoute C17.ProofsJoin C17.ProofsArea C17.ProofsCarry C17.Examples C17.ProofsWitness.
+From Verif Require C18.Model C18.Spec C18.Proofs.
 From VerifGen Require Import GenTags.
 Import ListNotations.
 Open Scope Z_scope.
@@ -87,13 +88,100 @@ Print Assumptions C17_way_pass_feature.
 
 Example C17_way_geometry_nonvacuous :
   (* way 13 of d_rich is an area way given clockwise: the ring comes out reversed *)
-  exists w, In w (ways d_rich) /\ w_area w = true /\
+  exists w, In w (ways d_rich) /\ way_area w = true /\
             memZ (w_id w) (skippable Mputil.join Mputil.ring_of o0 d_rich) = false /\
             spec_coords d_rich w = [(12, 12); (14, 12); (14, 14); (12, 12)] /\
             shoelace (spec_coords d_rich w) > 0.
 Proof.
   exists (wy 13 [("natural", "water")]%string true [9; 13; 14; 9]).
   split; [cbn; tauto|]. vm_compute. repeat split; reflexivity.
+Qed.
+
+(* "area way" is what Way.Polygon() computes: the model's [way_area] is property C18's model of
+   polygon.go on the rule table re-read from /repo — never a panic or fuel exhaustion, equal to
+   the declarative specification of the polygon rules on the way's node ids and (first-wins)
+   tags; in particular at least four nodes, first and last with the same id. *)
+Theorem C17_way_area_is_polygon : forall w,
+  C18.Model.way_polygon C18.Model.RT (map wn_id (w_nodes w)) (w_tags w) = C18.Model.Val (way_area w).
+Proof. exact way_area_polygon. Qed.
+Print Assumptions C17_way_area_is_polygon.
+
+Theorem C17_way_area_spec : forall w,
+  way_area w = true <->
+  C18.Spec.spec_polygon (map wn_id (w_nodes w)) (C18.Proofs.dedup_first (w_tags w)).
+Proof. exact way_area_spec. Qed.
+Print Assumptions C17_way_area_spec.
+
+Theorem C17_way_area_closed : forall w,
+  way_area w = true ->
+  (4 <= List.length (w_nodes w))%nat /\
+  option_map wn_id (hd_error (w_nodes w)) =
+  option_map wn_id (nth_error (w_nodes w) (List.length (w_nodes w) - 1)).
+Proof. exact way_area_closed. Qed.
+Print Assumptions C17_way_area_closed.
+
+(* ---------------------------------------------------------------------------------------
+   3b. Every feature carries its element: Feature.ID (unless NoID), type, id, the tag map, the
+      meta object (unless NoMeta) with each of timestamp / version / changeset / user / uid
+      present exactly when non-zero and equal to the element's, and (unless
+      NoRelationMembership) one membership summary per member entry naming the element, with
+      the relation's id, the entry's role and the relation's tag map, in relation order then
+      member order — for nodes, ways (of the data, or known only from an annotated multipolygon
+      member: no tags, no meta, no memberships) and relations. *)
+Theorem C17_feature_carries : forall join ring_of o d f,
+  In f (convert join ring_of o d) -> carries_element o d f.
+Proof. exact feature_carries. Qed.
+Print Assumptions C17_feature_carries.
+
+Theorem C17_meta_fields : forall m,
+  mo_ts (meta_obs m) = mt_ts m /\
+  (mo_version (meta_obs m) = if mt_version m =? 0 then None else Some (mt_version m)) /\
+  (mo_changeset (meta_obs m) = if mt_changeset m =? 0 then None else Some (mt_changeset m)) /\
+  (mo_user (meta_obs m) = if String.eqb (mt_user m) "" then None else Some (mt_user m)) /\
+  (mo_uid (meta_obs m) = if mt_uid m =? 0 then None else Some (mt_uid m)).
+Proof. exact meta_obs_fields. Qed.
+Print Assumptions C17_meta_fields.
+
+Theorem C17_membership_summaries : forall o d key,
+  noRelM o = false ->
+  (fst key = TWay -> is_some (way_lookup d (snd key)) = true) ->
+  rel_summaries o d key = spec_rels d key.
+Proof. exact rel_summaries_spec. Qed.
+Print Assumptions C17_membership_summaries.
+
+Theorem C17_membership_absent_way : forall o d id,
+  way_lookup d id = None -> rel_summaries o d (TWay, id) = [].
+Proof. exact rel_summaries_absent_way. Qed.
+Print Assumptions C17_membership_absent_way.
+
+(* the tainted flag: never on points; on a way-pass feature iff a node of the way has no
+   coordinates; on a route iff a member way is missing or has such a node; on a multipolygon
+   (also when it is reported under an adopted way's id) iff an inner/outer way member is
+   missing without annotated nodes or has such a node *)
+Theorem C17_tainted_rules : forall join ring_of o d f,
+  In f (convert join ring_of o d) ->
+  (In f (node_features o d) -> f_tainted f = false) /\
+  (In f (way_features join ring_of o d) ->
+     exists w, In w (ways d) /\ w_id w = f_ref f /\ f_tainted f = unresolved d w) /\
+  (forall r, In r (relations d) -> snd (rel_result join ring_of o d r) = Some f ->
+     f_tainted f = if String.eqb (tag_find (r_tags r) "type") "route" then route_tainted d r
+                   else mp_tainted d r).
+Proof. exact tainted_rules. Qed.
+Print Assumptions C17_tainted_rules.
+
+Example C17_carries_nonvacuous :
+  (* node 8 of d_rich: all five meta fields present; way 10: member of relation 2 as outer *)
+  exists f g, In f (convert Mputil.join Mputil.ring_of o0 d_rich) /\ In g (convert Mputil.join Mputil.ring_of o0 d_rich) /\
+    f_meta f = Some {| mo_ts := Some 1300000100; mo_version := Some 1; mo_changeset := Some 123;
+                       mo_user := Some "bob"%string; mo_uid := Some 9 |} /\
+    f_rels g = Some [{| s_id := 2; s_role := "outer"%string;
+                        s_tags := [("type", "multipolygon"); ("landuse", "forest")]%string |}].
+Proof.
+  eexists. eexists. split; [|split; [|split]].
+  - vm_compute. do 8 right. left. reflexivity.
+  - vm_compute. do 2 right. left. reflexivity.
+  - reflexivity.
+  - reflexivity.
 Qed.
 
 (* ---------------------------------------------------------------------------------------
